@@ -189,14 +189,59 @@ theorem push_cont (op : Op α κ β) (h : op.isLimit = false) (st : St α κ β)
   | skipLimit s n => simp [Op.isLimit] at h
   | skip s => simp only [Op.push]; split <;> (try split) <;> rfl
   | _ => simp [Op.push]
+theorem rechunk_flatten (size : Nat) (hs : 0 < size) (fuel : Nat) (rows : List α)
+    (h : rows.length ≤ fuel) : (rechunk size fuel rows).flatten = rows := by
+  induction fuel generalizing rows with
+  | zero =>
+    have : rows = [] := List.length_eq_zero_iff.mp (by omega)
+    subst this; rfl
+  | succ n ih =>
+    simp only [rechunk]
+    split
+    · rename_i he
+      have : rows = [] := by simpa using he
+      subst this; rfl
+    · rename_i he
+      have hne : rows ≠ [] := by simpa using he
+      have hl : 0 < rows.length := List.length_pos_iff.mpr hne
+      simp only [List.flatten_cons]
+      rw [ih (rows.drop size) (by simp only [List.length_drop]; omega)]
+      exact List.take_append_drop size rows
+
+theorem rechunkAll_flatten (size : Nat) (hs : 0 < size) (rows : List α) :
+    (rechunkAll size rows).flatten = rows := rechunk_flatten size hs _ rows (Nat.le_refl _)
+
+theorem single_flatten (rows : List α) : (single rows).flatten = rows := by
+  unfold single
+  split
+  · rename_i h; have : rows = [] := by simpa using h
+    simp [this]
+  · simp
+
+/-- whatever the chunking of `finalize`'s output, it is `finalize`'s output -/
+theorem finalizeChunks_flatten (pq : PipeQ) (hc : 0 < pq.cap) (op : Op α κ β) (st : St α κ β) :
+    (op.finalizeChunks pq st).flatten = op.finalize st := by
+  cases op <;> simp only [Op.finalizeChunks] <;> (try split) <;>
+    first | exact single_flatten _ | exact rechunkAll_flatten _ hc _
+
 def opsOf (sg : List (Stage α κ β)) : List (Op α κ β) := sg.map Prod.fst
 
-omit [DecidableEq κ] in
 theorem limitOnlyLast_cons2 (op r : Op α κ β) (rest : List (Op α κ β)) :
     limitOnlyLast (op :: r :: rest) = (!op.isLimit && limitOnlyLast (r :: rest)) := rfl
 
-theorem pushThrough_ops (sg : List (Stage α κ β)) (c : List α) :
-    opsOf (pushThrough sg c).1 = opsOf sg := by
+/-- the pipeline is the repaired one, or limit-like operators occur only in last position (under
+which the old code behaves like the repaired one) -/
+def PipeOK (pq : PipeQ) (ops : List (Op α κ β)) : Prop := pq.drop = false ∨ limitOnlyLast ops = true
+
+theorem PipeOK.tail {pq : PipeQ} {op r : Op α κ β} {rest : List (Op α κ β)}
+    (h : PipeOK pq (op :: r :: rest)) : PipeOK pq (r :: rest) := by
+  rcases h with h | h
+  · exact Or.inl h
+  · simp only [limitOnlyLast_cons2, Bool.and_eq_true] at h
+    exact Or.inr h.2
+
+theorem pushThrough_ops (pq : PipeQ) (sg : List (Stage α κ β)) (c : List α) :
+    opsOf (pushThrough pq sg c).1 = opsOf sg := by
   induction sg generalizing c with
   | nil => rfl
   | cons s rest ih =>
@@ -209,11 +254,11 @@ theorem pushThrough_ops (sg : List (Stage α κ β)) (c : List α) :
       · simp only [opsOf, List.map_cons] at ih ⊢
         rw [ih]
 
-/-- D: one `push_through` = the stages consuming the chunk; a `false` means nothing will ever
-come out again -/
-theorem pushThrough_sem (sg : List (Stage α κ β)) (h : limitOnlyLast (opsOf sg) = true) (c Y : List α) :
-    semPipe sg (c ++ Y) = (pushThrough sg c).2.1 ++ semPipe (pushThrough sg c).1 Y ∧
-    ((pushThrough sg c).2.2 = false → ∀ Z, semPipe (pushThrough sg c).1 Z = []) := by
+/-- D: one `push_through` = the stages consuming the chunk; after a `false` further input makes
+no difference to what will come out -/
+theorem pushThrough_sem (pq : PipeQ) (sg : List (Stage α κ β)) (h : PipeOK pq (opsOf sg)) (c Y : List α) :
+    semPipe sg (c ++ Y) = (pushThrough pq sg c).2.1 ++ semPipe (pushThrough pq sg c).1 Y ∧
+    ((pushThrough pq sg c).2.2 = false → ∀ Z, semPipe (pushThrough pq sg c).1 Z = semPipe (pushThrough pq sg c).1 []) := by
   induction sg generalizing c Y with
   | nil => simp [semPipe, pushThrough]
   | cons s rest ih =>
@@ -221,77 +266,99 @@ theorem pushThrough_sem (sg : List (Stage α κ β)) (h : limitOnlyLast (opsOf s
     cases rest with
     | nil =>
       simp only [pushThrough, List.isEmpty_nil, if_true, semPipe]
-      exact ⟨sem_push op st c Y, fun hf Z => sem_dead op st c hf Z⟩
+      exact ⟨sem_push op st c Y, fun hf Z => by rw [sem_dead op st c hf Z, sem_dead op st c hf []]⟩
     | cons r rest =>
-      have hw : op.isLimit = false ∧ limitOnlyLast (opsOf (r :: rest)) = true := by
-        simp only [opsOf, List.map_cons, limitOnlyLast_cons2, Bool.and_eq_true, Bool.not_eq_true'] at h
-        simpa [opsOf] using h
-      have hc := push_cont op hw.1 st c
+      have hw : PipeOK pq (opsOf (r :: rest)) := by
+        have : PipeOK pq (op :: opsOf (r :: rest)) := by simpa [opsOf] using h
+        simpa [opsOf] using this.tail
+      -- the old code's early return never fires here
+      have hnodrop : (pq.drop && !(op.push st c).2.2) = false := by
+        rcases h with h | h
+        · simp [h]
+        · have hl : op.isLimit = false := by
+            simp only [opsOf, List.map_cons, limitOnlyLast_cons2, Bool.and_eq_true, Bool.not_eq_true'] at h
+            exact h.1
+          simp [push_cont op hl st c]
       unfold pushThrough
-      simp only [List.isEmpty_cons, Bool.false_eq_true, if_false, hc, Bool.not_true, Bool.false_or]
+      simp only [List.isEmpty_cons, Bool.false_eq_true, if_false, hnodrop, Bool.or_false]
       split
       · rename_i he
         have he' : (op.push st c).2.1 = [] := by simpa using he
         simp only [semPipe]
-        rw [sem_push, he']
-        simp
+        refine ⟨by rw [sem_push, he']; simp, ?_⟩
+        intro hf Z
+        rw [sem_dead op st c hf Z, sem_dead op st c hf []]
       · simp only [semPipe]
         rw [sem_push]
-        have := ih hw.2 (op.push st c).2.1 (op.sem (op.push st c).1 Y)
-        refine ⟨this.1, ?_⟩
+        have hi := ih hw (op.push st c).2.1 (op.sem (op.push st c).1 Y)
+        refine ⟨hi.1, ?_⟩
         intro hf Z
-        exact (ih hw.2 (op.push st c).2.1 (op.sem (op.push st c).1 Y)).2 hf _
+        simp only [Bool.and_eq_false_iff] at hf
+        rcases hf with hf | hf
+        · rw [sem_dead op st c hf Z, sem_dead op st c hf []]
+        · have h2 := (ih hw (op.push st c).2.1 []).2 hf
+          rw [h2 (op.sem (op.push st c).1 Z), h2 (op.sem (op.push st c).1 [])]
+
+theorem pushChunks_ops (pq : PipeQ) (sg : List (Stage α κ β)) (cs : List (List α)) :
+    opsOf (pushChunks pq sg cs).1 = opsOf sg := by
+  induction cs generalizing sg with
+  | nil => rfl
+  | cons c cs ih => simp only [pushChunks]; rw [ih, pushThrough_ops]
+
+theorem pushChunks_sem (pq : PipeQ) (sg : List (Stage α κ β)) (h : PipeOK pq (opsOf sg))
+    (cs : List (List α)) (Y : List α) :
+    semPipe sg (cs.flatten ++ Y) = (pushChunks pq sg cs).2 ++ semPipe (pushChunks pq sg cs).1 Y := by
+  induction cs generalizing sg with
+  | nil => simp [pushChunks]
+  | cons c cs ih =>
+    simp only [pushChunks, List.flatten_cons, List.append_assoc]
+    rw [(pushThrough_sem pq sg h c (cs.flatten ++ Y)).1, ih _ (by rw [pushThrough_ops]; exact h)]
 
 /-- F: `finalize_all` = the stages consuming the empty stream -/
-theorem finalizeAll_sem (sg : List (Stage α κ β)) (h : limitOnlyLast (opsOf sg) = true) :
-    finalizeAll sg = semPipe sg [] := by
-  fun_induction finalizeAll sg with
-  | case1 => rfl
-  | case2 op st rest he =>
-    have : rest = [] := by simpa using he
+theorem finalizeAll_sem (pq : PipeQ) (hc : 0 < pq.cap) (sg : List (Stage α κ β)) (h : PipeOK pq (opsOf sg)) :
+    finalizeAll pq sg = semPipe sg [] := by
+  generalize hn : sg.length = n
+  induction n generalizing sg with
+  | zero =>
+    have : sg = [] := List.length_eq_zero_iff.mp hn
     subst this
-    simp [semPipe, sem_nil]
-  | case3 op st rest he hf ih =>
-    cases rest with
-    | nil => simp at he
-    | cons r rest =>
-      have hw : limitOnlyLast (opsOf (r :: rest)) = true := by
-        simp only [opsOf, List.map_cons, limitOnlyLast_cons2, Bool.and_eq_true] at h
-        simpa [opsOf] using h.2
-      rw [ih hw]
-      have : op.finalize st = [] := by simpa using hf
-      simp [semPipe, sem_nil, this]
-  | case4 op st rest he hf ih =>
-    cases rest with
-    | nil => simp at he
-    | cons r rest =>
-      have hw : limitOnlyLast (opsOf (r :: rest)) = true := by
-        simp only [opsOf, List.map_cons, limitOnlyLast_cons2, Bool.and_eq_true] at h
-        simpa [opsOf] using h.2
-      rw [ih (by rw [pushThrough_ops]; exact hw)]
-      have := (pushThrough_sem (r :: rest) hw (op.finalize st) []).1
-      simp only [List.append_nil] at this
-      simp only [semPipe, sem_nil]
-      exact this.symm
+    rw [finalizeAll]; rfl
+  | succ n ih =>
+    cases sg with
+    | nil => simp at hn
+    | cons s rest =>
+      obtain ⟨op, st⟩ := s
+      rw [finalizeAll]
+      cases rest with
+      | nil => simp [semPipe, sem_nil, finalizeChunks_flatten pq hc]
+      | cons r rest =>
+        have hw : PipeOK pq (opsOf (r :: rest)) := by
+          have : PipeOK pq (op :: opsOf (r :: rest)) := by simpa [opsOf] using h
+          simpa [opsOf] using this.tail
+        simp only [List.isEmpty_cons, Bool.false_eq_true, if_false]
+        rw [ih _ (by rw [pushChunks_ops]; exact hw) (by rw [pushChunks_length]; simpa using hn)]
+        have := pushChunks_sem pq (r :: rest) hw (op.finalizeChunks pq st) []
+        rw [finalizeChunks_flatten pq hc, List.append_nil] at this
+        simp only [semPipe, sem_nil]
+        exact this.symm
 
 /-- the loop of `execute` followed by `finalize_all` = the stages consuming the whole input -/
-theorem pushAll_sem (sg : List (Stage α κ β)) (h : limitOnlyLast (opsOf sg) = true)
+theorem pushAll_sem (pq : PipeQ) (hc : 0 < pq.cap) (sg : List (Stage α κ β)) (h : PipeOK pq (opsOf sg))
     (chunks : List (List α)) :
-    (pushAll sg chunks).2 ++ finalizeAll (pushAll sg chunks).1 = semPipe sg chunks.flatten := by
+    (pushAll pq sg chunks).2 ++ finalizeAll pq (pushAll pq sg chunks).1 = semPipe sg chunks.flatten := by
   induction chunks generalizing sg with
-  | nil => simp [pushAll, finalizeAll_sem sg h]
+  | nil => simp [pushAll, finalizeAll_sem pq hc sg h]
   | cons c cs ih =>
-    have hw : limitOnlyLast (opsOf (pushThrough sg c).1) = true := by rw [pushThrough_ops]; exact h
-    have hd := pushThrough_sem sg h c cs.flatten
+    have hw : PipeOK pq (opsOf (pushThrough pq sg c).1) := by rw [pushThrough_ops]; exact h
+    have hd := pushThrough_sem pq sg h c cs.flatten
     simp only [pushAll, List.flatten_cons]
     split
     · simp only [List.append_assoc]
       rw [ih _ hw, hd.1]
     · rename_i hk
-      have hk' : (pushThrough sg c).2.2 = false := by simpa using hk
+      have hk' : (pushThrough pq sg c).2.2 = false := by simpa using hk
       simp only
-      rw [finalizeAll_sem _ hw, hd.1, hd.2 hk', hd.2 hk']
-
+      rw [finalizeAll_sem pq hc _ hw, hd.1, hd.2 hk' cs.flatten]
 
 theorem dedupFirst_nil (key : α → κ) : dedupFirst key [] = [] := by rw [dedupFirst]
 theorem dedupFirst_cons (key : α → κ) (r : α) (rs : List α) :
@@ -488,45 +555,57 @@ theorem semPipe_init (ops : List (Op α κ β)) (r : List α) :
 theorem opsOf_init (ops : List (Op α κ β)) : opsOf (initStages ops) = ops := by
   induction ops <;> simp_all [opsOf, initStages]
 
-/-- the full-strength statement of the property for the push pipeline -/
-def PushEqSpec (α κ β : Type) [DecidableEq κ] : Prop :=
-  ∀ (ops : List (Op α κ β)) (chunks : List (List α)), run ops chunks = specChain ops chunks.flatten
-
-/-- P: for every chain in which limit-like operators occur only in last position, every input and
-every chunking (empty chunks included), the sink of `Pipeline::execute` receives exactly the rows
-of the list-level specification, in order. -/
-theorem c17_push_pipeline_eq_spec_partial (ops : List (Op α κ β)) (h : limitOnlyLast ops = true)
-    (chunks : List (List α)) : run ops chunks = specChain ops chunks.flatten := by
+/-- F: for EVERY chain of the modelled operator kinds, every input and every chunking (empty chunks
+included), the sink of `Pipeline::execute` receives exactly the rows of the list-level
+specification, in order; whether pipeline breakers emit one chunk or chunks of the standard size
+makes no difference. (`pq.drop = false`: the code since "push pipelines keep the rows an operator
+hands on together with its request to stop".) -/
+theorem c17_push_pipeline_eq_spec (pq : PipeQ) (hd : pq.drop = false) (hc : 0 < pq.cap)
+    (ops : List (Op α κ β)) (chunks : List (List α)) :
+    run pq ops chunks = specChain ops chunks.flatten := by
   unfold run
-  rw [pushAll_sem _ (by rw [opsOf_init]; exact h), semPipe_init]
+  rw [pushAll_sem pq hc _ (Or.inl hd), semPipe_init]
 
 /-- F: the result does not depend on how the source cuts its rows into chunks -/
-theorem c17_push_chunking_irrelevant (ops : List (Op α κ β)) (h : limitOnlyLast ops = true)
-    (c1 c2 : List (List α)) (he : c1.flatten = c2.flatten) : run ops c1 = run ops c2 := by
-  rw [c17_push_pipeline_eq_spec_partial ops h, c17_push_pipeline_eq_spec_partial ops h, he]
+theorem c17_push_chunking_irrelevant (pq : PipeQ) (hd : pq.drop = false) (hc : 0 < pq.cap)
+    (ops : List (Op α κ β)) (c1 c2 : List (List α)) (he : c1.flatten = c2.flatten) :
+    run pq ops c1 = run pq ops c2 := by
+  rw [c17_push_pipeline_eq_spec pq hd hc, c17_push_pipeline_eq_spec pq hd hc, he]
 
-/-- W: the unrestricted statement is false for the code as it is: LIMIT 1 followed by a projection
-over the single chunk `[7]` delivers nothing (the collector's content is dropped when the limit
-returns `false`), the specification says `[7]`. -/
+/-- N: a chain with every kind of operator, a limit in the middle, chunked unevenly -/
+theorem c17_push_pipeline_nonvacuous : run (κ := Nat) (β := Nat) ⟨false, false, false, 2⟩
+    [Op.filter (fun x : Nat => x != 4), Op.distinct (fun x => x % 5), Op.skip 1, Op.limit 2,
+     Op.sort (fun a b => decide (a ≤ b)), Op.limit 3]
+    [[9, 4], [], [3, 14, 1], [6, 2]] = [1, 3] := by
+  rw [c17_push_pipeline_eq_spec _ rfl (by decide)]
+  simp [specChain, Op.spec, dedupFirst_cons, dedupFirst_nil, List.mergeSort]
+
+namespace Old
+/-! the pipeline before its repair (`pq.drop = true`): regression theorems -/
+
+/-- the code before the repairs: collector dropped on `false`, one chunk per `finalize`, chunk
+size 0 possible -/
+def pq : PipeQ := ⟨true, true, true, 2048⟩
+
+/-- P (old code): correct for chains in which limit-like operators occur only in last position -/
+theorem c17_push_pipeline_eq_spec_partial (ops : List (Op α κ β)) (h : limitOnlyLast ops = true)
+    (chunks : List (List α)) : run pq ops chunks = specChain ops chunks.flatten := by
+  unfold run
+  rw [pushAll_sem pq (by decide) _ (Or.inr (by rw [opsOf_init]; exact h)), semPipe_init]
+
+/-- W (old code): LIMIT 1 followed by a projection over the single chunk `[7]` delivered nothing
+(the collector's content was dropped when the limit returned `false`); the repaired code
+delivers `[7]`. -/
 theorem c17_push_limit_not_last_drops_rows_witness :
-    run (κ := Nat) (β := Nat) [Op.limit 1, Op.project (fun x : Nat => x)] [[7]] = [] ∧
-    specChain (κ := Nat) (β := Nat) [Op.limit 1, Op.project (fun x : Nat => x)] [7] = [7] := by
+    run (κ := Nat) (β := Nat) pq [Op.limit 1, Op.project (fun x : Nat => x)] [[7]] = [] ∧
+    run (κ := Nat) (β := Nat) { pq with drop := false } [Op.limit 1, Op.project (fun x : Nat => x)] [[7]] = [7] := by
   constructor
-  · simp [run, initStages, pushAll, pushThrough, Op.push, limitPush, St.empty, finalizeAll, Op.finalize]
-  · simp [specChain, Op.spec]
+  · simp [run, pq, initStages, pushAll, pushThrough, Op.push, limitPush, St.empty, finalizeAll, Op.finalize,
+      Op.finalizeChunks, pushChunks, single]
+  · rw [c17_push_pipeline_eq_spec _ rfl (by decide)]
+    simp [specChain, Op.spec]
 
-theorem c17_push_eq_spec_unrestricted_false : ¬ PushEqSpec Nat Nat Nat := by
-  intro h
-  have h1 := h [Op.limit 1, Op.project (fun x : Nat => x)] [[7]]
-  rw [c17_push_limit_not_last_drops_rows_witness.1] at h1
-  simp [specChain, Op.spec] at h1
-
-/-- N: a chain with every kind of operator, chunked unevenly, through the as-is pipeline -/
-theorem c17_push_pipeline_nonvacuous : run (κ := Nat) (β := Nat)
-    [Op.filter (fun x : Nat => x != 4), Op.distinct (fun x => x % 5), Op.skip 1, Op.sort (fun a b => decide (a ≤ b)), Op.limit 3]
-    [[9, 4], [], [3, 14, 1], [6, 2]] = [1, 2, 3] := by
-  simp [run, initStages, pushAll, pushThrough, Op.push, limitPush, St.empty, finalizeAll, Op.finalize, dedupStep,
-    List.mergeSort]
+end Old
 
 /-! ## 2. pull operators -/
 
@@ -565,28 +644,6 @@ theorem flatten_dropEmpty (cs : List (List α)) : (dropEmpty cs).flatten = cs.fl
     | nil => simpa using ih
     | cons x xs => simp [ih]
 
-theorem rechunk_flatten (size : Nat) (hs : 0 < size) (fuel : Nat) (rows : List α)
-    (h : rows.length ≤ fuel) : (rechunk size fuel rows).flatten = rows := by
-  induction fuel generalizing rows with
-  | zero =>
-    have : rows = [] := List.length_eq_zero_iff.mp (by omega)
-    subst this; rfl
-  | succ n ih =>
-    simp only [rechunk]
-    split
-    · rename_i he
-      have : rows = [] := by simpa using he
-      subst this; rfl
-    · rename_i he
-      have hne : rows ≠ [] := by simpa using he
-      have hl : 0 < rows.length := List.length_pos_iff.mpr hne
-      simp only [List.flatten_cons]
-      rw [ih (rows.drop size) (by simp only [List.length_drop]; omega)]
-      exact List.take_append_drop size rows
-
-theorem rechunkAll_flatten (size : Nat) (hs : 0 < size) (rows : List α) :
-    (rechunkAll size rows).flatten = rows := rechunk_flatten size hs _ rows (Nat.le_refl _)
-
 /-- F: every pull operator, over every chunking of its child's output, returns the rows of the
 list-level specification -/
 theorem c17_pull_op_eq_spec (cap : Nat) (hc : 0 < cap) (op : Op α κ β) (cs : List (List α)) :
@@ -624,13 +681,13 @@ theorem c17_pull_chain_eq_spec (cap : Nat) (hc : 0 < cap) (ops : List (Op α κ 
     simp only [pullChain, specChain]
     rw [ih, c17_pull_op_eq_spec cap hc]
 
-/-- P: push-based and pull-based execution of the same chain return the same rows in the same
-order, whatever the two chunkings of the input (limit-like operators only in last position). -/
-theorem c17_push_eq_pull_partial (cap : Nat) (hc : 0 < cap) (ops : List (Op α κ β))
-    (h : limitOnlyLast ops = true) (pushChunks pullChunks : List (List α))
+/-- F: push-based and pull-based execution of the same chain return the same rows in the same
+order, whatever the two chunkings of the input. -/
+theorem c17_push_eq_pull (pq : PipeQ) (hd : pq.drop = false) (hc : 0 < pq.cap) (cap : Nat) (hcap : 0 < cap)
+    (ops : List (Op α κ β)) (pushChunks pullChunks : List (List α))
     (he : pushChunks.flatten = pullChunks.flatten) :
-    run ops pushChunks = (pullChain cap ops pullChunks).flatten := by
-  rw [c17_push_pipeline_eq_spec_partial ops h, c17_pull_chain_eq_spec cap hc, he]
+    run pq ops pushChunks = (pullChain cap ops pullChunks).flatten := by
+  rw [c17_push_pipeline_eq_spec pq hd hc, c17_pull_chain_eq_spec cap hcap, he]
 
 /-! ## 3. spilling -/
 section Spill
@@ -839,7 +896,7 @@ theorem c17_external_sort_sorted_perm (le : α → α → Bool)
 
 /-- F: hence, when the order is antisymmetric on the rows (rows with equal keys are equal), the
 spilled result IS the in-memory result, for every threshold -/
-theorem c17_external_sort_eq_in_memory (le : α → α → Bool)
+theorem c17_external_sort_any_heap_antisymm (le : α → α → Bool)
     (trans : ∀ a b c, le a b = true → le b c = true → le a c = true)
     (total : ∀ a b, (le a b || le b a) = true)
     (antisymm : ∀ a b, le a b = true → le b a = true → a = b)
@@ -960,6 +1017,336 @@ theorem pickFirstMin_ok (le : α → α → Bool)
             | succ k => exact hmin k y (by simpa [headOf] using hk)
 end Spill
 
+section Stable
+open List
+variable {α : Type}
+
+/-! ### the repaired merge is stable -/
+
+theorem zipIdx_shift (l : List α) (k : Nat) :
+    l.zipIdx k = (l.zipIdx 0).map (fun p => (p.1, p.2 + k)) := by
+  induction l generalizing k with
+  | nil => rfl
+  | cons x xs ih =>
+    simp only [zipIdx_cons, map_cons, Nat.zero_add]
+    rw [ih (k + 1), ih 1, map_map]
+    congr 1
+    apply map_congr_left
+    intro p _
+    simp only [Function.comp]
+    congr 1
+    omega
+
+theorem mergeSort_zipIdx_at (le : α → α → Bool) (i : Nat) (l : List α) :
+    (mergeSort (l.zipIdx i) (zipIdxLE le)).map (·.1) = mergeSort l le := by
+  rw [zipIdx_shift l i,
+    ← map_mergeSort (r := zipIdxLE le) (s := zipIdxLE le) (f := fun p : α × Nat => (p.1, p.2 + i))
+      (by intro a _ b _; simp [zipIdxLE]),
+    map_map]
+  exact mergeSort_zipIdx
+
+/-- stable merge sort of a concatenation = stable merge of the two stable sorts -/
+theorem mergeSort_append (le : α → α → Bool)
+    (trans : ∀ a b c, le a b = true → le b c = true → le a c = true)
+    (total : ∀ a b, (le a b || le b a) = true) (a b : List α) :
+    (a ++ b).mergeSort le = merge (a.mergeSort le) (b.mergeSort le) le := by
+  have tr : ∀ (x y z : α × Nat), zipIdxLE le x y = true → zipIdxLE le y z = true → zipIdxLE le x z = true :=
+    fun x y z => zipIdxLE_trans (fun a b c => trans a b c) x y z
+  have to : ∀ (x y : α × Nat), (zipIdxLE le x y || zipIdxLE le y x) = true :=
+    fun x y => zipIdxLE_total total x y
+  have key : mergeSort (a.zipIdx 0 ++ b.zipIdx (0 + a.length)) (zipIdxLE le) =
+      merge (mergeSort (a.zipIdx 0) (zipIdxLE le)) (mergeSort (b.zipIdx (0 + a.length)) (zipIdxLE le)) (zipIdxLE le) := by
+    apply Perm.eq_of_pairwise (le := fun x y => zipIdxLE le x y = true)
+    · rintro ⟨x, i⟩ ⟨y, j⟩ hx hy hxy hyx
+      have hx' : (x, i) ∈ (a ++ b).zipIdx 0 := by
+        rw [zipIdx_append]; exact mem_mergeSort.mp hx
+      have hy' : (y, j) ∈ (a ++ b).zipIdx 0 := by
+        rw [zipIdx_append]
+        have := mem_merge.mp hy
+        rcases this with h | h
+        · exact mem_append_left _ (mem_mergeSort.mp h)
+        · exact mem_append_right _ (mem_mergeSort.mp h)
+      simp only [zipIdxLE] at hxy hyx
+      have hij : i = j := by
+        by_cases h1 : le x y = true <;> by_cases h2 : le y x = true <;> simp_all <;> omega
+      subst hij
+      have e1 := mem_zipIdx hx'
+      have e2 := mem_zipIdx hy'
+      simp_all
+    · exact pairwise_mergeSort tr to _
+    · exact pairwise_merge tr to _ _ (pairwise_mergeSort tr to _) (pairwise_mergeSort tr to _)
+    · refine (mergeSort_perm _ _).trans ?_
+      refine Perm.trans ?_ (merge_perm_append (le := zipIdxLE le)).symm
+      exact Perm.append (mergeSort_perm _ _).symm (mergeSort_perm _ _).symm
+  rw [← mergeSort_zipIdx (l := a ++ b), zipIdx_append, key, merge_stable]
+  · rw [mergeSort_zipIdx_at, mergeSort_zipIdx_at]
+  · intro x y hx hy
+    have hx' := mem_zipIdx (mem_mergeSort.mp hx)
+    have hy' := mem_zipIdx (mem_mergeSort.mp hy)
+    omega
+
+/-- the k-way merge as nested stable two-way merges -/
+def kmerge (le : α → α → Bool) (runs : List (List α)) : List α :=
+  runs.foldr (fun r acc => merge r acc le) []
+
+theorem kmerge_all_nil (le : α → α → Bool) (runs : List (List α)) (h : ∀ r ∈ runs, r = []) :
+    kmerge le runs = [] := by
+  induction runs with
+  | nil => rfl
+  | cons r rs ih =>
+    have hr : r = [] := h r (by simp)
+    subst hr
+    simp only [kmerge, foldr_cons] at ih ⊢
+    rw [ih (fun q hq => h q (by simp [hq]))]
+    simp [merge]
+
+theorem pickFirstMin_none (le : α → α → Bool) (runs : List (List α)) (h : pickFirstMin le runs = none) :
+    ∀ r ∈ runs, r = [] := by
+  induction runs with
+  | nil => simp
+  | cons r rs ih =>
+    simp only [pickFirstMin] at h
+    cases r with
+    | nil =>
+      cases hp : pickFirstMin le rs with
+      | none =>
+        intro q hq
+        rcases mem_cons.mp hq with rfl | hq'
+        · rfl
+        · exact ih hp q hq'
+      | some j => simp [hp] at h
+    | cons x xs =>
+      cases hp : pickFirstMin le rs with
+      | none => simp [hp] at h
+      | some j =>
+        simp only [hp] at h
+        split at h
+        · split at h <;> simp at h
+        · simp at h
+
+theorem pickFirstMin_nonempty (le : α → α → Bool) (runs : List (List α)) (i : Nat)
+    (h : pickFirstMin le runs = some i) : ∃ x xs, runs[i]? = some (x :: xs) := by
+  induction runs generalizing i with
+  | nil => simp [pickFirstMin] at h
+  | cons r rs ih =>
+    simp only [pickFirstMin] at h
+    cases r with
+    | nil =>
+      cases hp : pickFirstMin le rs with
+      | none => simp [hp] at h
+      | some j =>
+        simp only [hp, Option.some.injEq] at h
+        subst h
+        obtain ⟨x, xs, hx⟩ := ih j hp
+        exact ⟨x, xs, by simpa using hx⟩
+    | cons a as =>
+      cases hp : pickFirstMin le rs with
+      | none =>
+        simp only [hp, Option.some.injEq] at h
+        subst h
+        exact ⟨a, as, by simp⟩
+      | some j =>
+        obtain ⟨y, ys, hy⟩ := ih j hp
+        simp only [hp, hy] at h
+        split at h
+        · simp at h; subst h; exact ⟨a, as, by simp⟩
+        · simp at h; subst h; exact ⟨y, ys, by simpa using hy⟩
+
+/-- one step of the leftmost-minimum k-way merge is one step of the nested two-way merges -/
+theorem kmerge_step (le : α → α → Bool) (runs : List (List α)) (i : Nat) (x : α)
+    (hp : pickFirstMin le runs = some i) (hx : headOf runs i = some x) :
+    kmerge le runs = x :: kmerge le (popFront runs i) := by
+  induction runs generalizing i x with
+  | nil => simp [pickFirstMin] at hp
+  | cons r rs ih =>
+    simp only [pickFirstMin] at hp
+    cases r with
+    | nil =>
+      cases hq : pickFirstMin le rs with
+      | none => simp [hq] at hp
+      | some j =>
+        simp only [hq, Option.some.injEq] at hp
+        subst hp
+        have hx' : headOf rs j = some x := by simpa [headOf] using hx
+        have := ih j x hq hx'
+        simp only [kmerge, foldr_cons, popFront] at this ⊢
+        simp only [merge, List.nil_merge] at this ⊢
+        exact this
+    | cons a as =>
+      cases hq : pickFirstMin le rs with
+      | none =>
+        simp only [hq, Option.some.injEq] at hp
+        subst hp
+        have hxa : x = a := by simpa [headOf] using hx.symm
+        subst hxa
+        have hnil := kmerge_all_nil le rs (pickFirstMin_none le rs hq)
+        simp only [kmerge, foldr_cons, popFront, List.tail_cons] at hnil ⊢
+        rw [hnil]
+        simp [merge]
+      | some j =>
+        obtain ⟨y, ys, hy⟩ := pickFirstMin_nonempty le rs j hq
+        have hhy : headOf rs j = some y := by simp [headOf, hy]
+        have hrs := ih j y hq hhy
+        simp only [hq, hy] at hp
+        by_cases hle : le a y = true
+        · simp only [hle, if_true, Option.some.injEq] at hp
+          subst hp
+          have hxa : x = a := by simpa [headOf] using hx.symm
+          subst hxa
+          simp only [kmerge, foldr_cons, popFront, List.tail_cons] at hrs ⊢
+          rw [hrs, cons_merge_cons, if_pos hle]
+        · simp only [hle, Bool.false_eq_true, if_false, Option.some.injEq] at hp
+          subst hp
+          have hxy : x = y := by
+            have : headOf (( a :: as) :: rs) (j + 1) = headOf rs j := by simp [headOf]
+            rw [this, hhy] at hx
+            exact (Option.some.inj hx).symm
+          subst hxy
+          simp only [kmerge, foldr_cons, popFront] at hrs ⊢
+          rw [hrs, cons_merge_cons, if_neg hle]
+
+/-- F: the leftmost-minimum k-way merge IS the nested stable two-way merge, for arbitrary runs -/
+theorem mergeWith_pickFirstMin_eq_kmerge (le : α → α → Bool) (n : Nat) (runs : List (List α))
+    (hn : runs.flatten.length ≤ n) : mergeWith (pickFirstMin le) n runs = kmerge le runs := by
+  induction n generalizing runs with
+  | zero =>
+    have hall : ∀ r ∈ runs, r = [] := by
+      have : runs.flatten = [] := length_eq_zero_iff.mp (by omega)
+      exact flatten_eq_nil_iff.mp this
+    simp [mergeWith, kmerge_all_nil le runs hall]
+  | succ n ih =>
+    simp only [mergeWith]
+    cases hp : pickFirstMin le runs with
+    | none => simp [kmerge_all_nil le runs (pickFirstMin_none le runs hp)]
+    | some i =>
+      obtain ⟨x, xs, hx⟩ := pickFirstMin_nonempty le runs i hp
+      have hhx : headOf runs i = some x := by simp [headOf, hx]
+      simp only [hhx]
+      have hperm := popFront_perm runs i x hhx
+      have hlen : (popFront runs i).flatten.length ≤ n := by
+        have := hperm.length_eq
+        rw [length_cons] at this; omega
+      rw [ih _ hlen, kmerge_step le runs i x hp hhx]
+
+/-- nested stable merges of the stable sorts of consecutive segments = stable sort of everything -/
+theorem kmerge_sorted_segments (le : α → α → Bool)
+    (trans : ∀ a b c, le a b = true → le b c = true → le a c = true)
+    (total : ∀ a b, (le a b || le b a) = true) (segs : List (List α)) :
+    kmerge le (segs.map (fun s => s.mergeSort le)) = segs.flatten.mergeSort le := by
+  induction segs with
+  | nil => simp [kmerge]
+  | cons s rest ih =>
+    simp only [kmerge, map_cons, foldr_cons, flatten_cons] at ih ⊢
+    rw [ih, mergeSort_append le trans total]
+
+theorem xsort_step_segs (le : α → α → Bool) (threshold : Nat) (c : List α)
+    (st : List α × List (List α)) (segs : List (List α)) (hst : st.2 = segs.map (fun s => s.mergeSort le)) :
+    ∃ segs' : List (List α), (xsortPush le threshold st c).2 = segs'.map (fun s => s.mergeSort le) ∧
+      segs'.flatten ++ (xsortPush le threshold st c).1 = segs.flatten ++ st.1 ++ c := by
+  unfold xsortPush
+  split
+  · rename_i he
+    have : c = [] := by simpa using he
+    subst this
+    exact ⟨segs, hst, by simp⟩
+  · split
+    · exact ⟨segs, hst, by simp [append_assoc]⟩
+    · exact ⟨segs ++ [st.1 ++ c], by simp [hst], by simp [append_assoc]⟩
+
+/-- run generation, from any state whose runs are the stable sorts of consecutive segments: the
+runs stay such sorts and segments + buffer stay the input in arrival order -/
+theorem xsort_fold_segs (le : α → α → Bool) (threshold : Nat) (chunks : List (List α))
+    (st : List α × List (List α)) (segs : List (List α)) (hst : st.2 = segs.map (fun s => s.mergeSort le)) :
+    ∃ segs' : List (List α), (chunks.foldl (xsortPush le threshold) st).2 = segs'.map (fun s => s.mergeSort le) ∧
+      segs'.flatten ++ (chunks.foldl (xsortPush le threshold) st).1 = segs.flatten ++ st.1 ++ chunks.flatten := by
+  induction chunks generalizing st segs with
+  | nil => exact ⟨segs, hst, by simp⟩
+  | cons c cs ih =>
+    simp only [foldl_cons, flatten_cons]
+    obtain ⟨s1, h1, h2⟩ := xsort_step_segs le threshold c st segs hst
+    obtain ⟨s2, h3, h4⟩ := ih (xsortPush le threshold st c) s1 h1
+    refine ⟨s2, h3, ?_⟩
+    rw [h4, h2]; simp [append_assoc]
+
+/-- F: `SpillableSortPushOperator` / `ExternalSort` with the run-number tie-break return, for EVERY
+spill threshold (0 = every push spills a run; huge = nothing spills) and every chunking, exactly
+the stable sort of the input: the rows the in-memory `SortPushOperator` returns, in the same
+order, ties included. Needs only that the comparison is a total preorder. -/
+theorem c17_external_sort_eq_in_memory (cmp : α → α → Ordering)
+    (trans : ∀ a b c, (cmp a b != .gt) = true → (cmp b c != .gt) = true → (cmp a c != .gt) = true)
+    (total : ∀ a b, ((cmp a b != .gt) || (cmp b a != .gt)) = true)
+    (threshold : Nat) (chunks : List (List α)) :
+    xsortRun false cmp threshold chunks = chunks.flatten.mergeSort (fun a b => cmp a b != .gt) := by
+  obtain ⟨segs, h2, hfl⟩ := xsort_fold_segs (fun a b => cmp a b != .gt) threshold chunks ([], []) [] rfl
+  simp only [flatten_nil, nil_append] at hfl
+  have hst : xsortState (fun a b => cmp a b != .gt) threshold chunks =
+      chunks.foldl (xsortPush (fun a b => cmp a b != .gt) threshold) ([], []) := rfl
+  simp only [xsortRun, hst]
+  generalize chunks.foldl (xsortPush (fun a b => cmp a b != .gt) threshold) ([], []) = st at h2 hfl
+  obtain ⟨buf, runs⟩ := st
+  simp only at h2 hfl ⊢
+  subst h2
+  cases segs with
+  | nil => simp at hfl ⊢; rw [hfl]
+  | cons s rest =>
+    simp only [map_cons, isEmpty_cons, Bool.false_eq_true, if_false, mergeAll]
+    split
+    · rename_i h1
+      have hr : rest = [] := by
+        have := h1.1
+        simp only [length_cons, length_map] at this
+        exact length_eq_zero_iff.mp (by omega)
+      have hb : buf = [] := by simpa using h1.2
+      subst hr hb
+      simp at hfl ⊢
+      rw [← hfl]
+    · simp only [kWayMerge, Bool.false_eq_true, if_false]
+      rw [mergeWith_pickFirstMin_eq_kmerge _ _ _ (Nat.le_refl _)]
+      split
+      · rename_i hb
+        have hb' : buf = [] := by simpa using hb
+        subst hb'
+        have := kmerge_sorted_segments (fun a b => cmp a b != .gt) trans total (s :: rest)
+        simp only [map_cons] at this
+        rw [this, ← hfl]; simp
+      · have := kmerge_sorted_segments (fun a b => cmp a b != .gt) trans total (s :: rest ++ [buf])
+        simp only [map_cons, map_append, map_nil, cons_append] at this ⊢
+        rw [this, ← hfl]; simp
+
+/-- F: `parallel::merge_sorted_runs` over the stable sorts of consecutive pieces of a table (what
+workers that own consecutive morsels deliver) = the stable sort of the table -/
+theorem c17_merge_sorted_runs_stable (cmp : α → α → Ordering)
+    (trans : ∀ a b c, (cmp a b != .gt) = true → (cmp b c != .gt) = true → (cmp a c != .gt) = true)
+    (total : ∀ a b, ((cmp a b != .gt) || (cmp b a != .gt)) = true) (segs : List (List α)) :
+    mergeSortedRuns false cmp (segs.map (fun s => s.mergeSort (fun a b => cmp a b != .gt))) =
+      segs.flatten.mergeSort (fun a b => cmp a b != .gt) := by
+  unfold mergeSortedRuns
+  split
+  · rename_i h1
+    cases segs with
+    | nil => simp at h1
+    | cons s rest =>
+      have hr : rest = [] := by
+        simp only [map_cons, length_cons, length_map] at h1
+        exact length_eq_zero_iff.mp (by omega)
+      subst hr; simp
+  · simp only [kWayMerge, Bool.false_eq_true, if_false]
+    rw [mergeWith_pickFirstMin_eq_kmerge _ _ _ (Nat.le_refl _), kmerge_sorted_segments _ trans total]
+
+/-- N: ties with different payloads, "spill every push" -/
+theorem c17_external_sort_stable_nonvacuous :
+    xsortRun false (fun (a b : Nat × Nat) => compare a.1 b.1) 0 [[(3, 1), (2, 2)], [(3, 3), (1, 4)], [(3, 5), (2, 6)]]
+      = [(1, 4), (2, 2), (2, 6), (3, 1), (3, 3), (3, 5)] := by
+  rw [c17_external_sort_eq_in_memory]
+  · simp [List.mergeSort, List.merge, compare, compareOfLessAndEq]
+  · intro a b c; simp only [bne_iff_ne, ne_eq]
+    intro h1 h2 h3
+    rw [Nat.compare_eq_gt] at h1 h2 h3; omega
+  · intro a b
+    simp only [Bool.or_eq_true, bne_iff_ne, ne_eq, Nat.compare_eq_gt]; omega
+
+end Stable
+
 /-- N: `c17_external_sort_*` are not vacuous: keys with ties, "spill every push" / a threshold in
 the middle / nothing spills, the stable heap discipline -/
 theorem c17_external_sort_nonvacuous_1 :
@@ -986,8 +1373,9 @@ theorem c17_external_sort_nonvacuous_3 :
       = (0, [(1, 4), (2, 2), (2, 6), (3, 1), (3, 3), (3, 5)]) := by
   simp [xsortState, xsortPush, mergeWith, pickFirstMin, headOf, popFront, List.mergeSort]
 
-/-- W: the heap of the code (`BinaryHeap`, transliterated) is a valid but NOT a stable
-discipline: with "spill every push" rows with equal keys leave in an order the in-memory sort
+namespace Old
+/-- W (old code: heap entries compared by the sort keys only): the `BinaryHeap`, transliterated,
+is a valid but NOT a stable discipline: with "spill every push" rows with equal keys leave in an order the in-memory sort
 never produces; the in-memory (stable) order is `(3,1), (3,3), (3,5)`. -/
 theorem c17_external_sort_tie_order_witness :
     heapMerge (fun (a b : Nat × Nat) => compare a.1 b.1) [[(2, 2), (3, 1)], [(1, 4), (3, 3)], [(2, 6), (3, 5)]]
@@ -996,6 +1384,7 @@ theorem c17_external_sort_tie_order_witness :
         [[(2, 2), (3, 1)], [(1, 4), (3, 3)], [(2, 6), (3, 5)]]
       = [(1, 4), (2, 2), (2, 6), (3, 1), (3, 3), (3, 5)] := by
   decide
+end Old
 
 /-! ### accumulators: COUNT / SUM / MIN / MAX over a column of integers and NULLs -/
 
@@ -1117,10 +1506,12 @@ theorem c17_partst_spill_load (s : PartSt) (h : s.inMem = true) (hf : s.file = f
     simp [h, hf, this]
   · simp [h, h2]
 
+namespace Old
 /-- W: `cleanup()` drops its `SpillFile` handles without deleting the files: one insert, one spill,
 `cleanup` — a file stays in the spill directory (until the `SpillManager` itself is dropped) -/
 theorem c17_partst_cleanup_leaves_file_witness :
-    (({ data := [([Val.int 1], 10)] } : PartSt).spill.1.cleanup).filesOnDisk = 1 := by decide
+    ((({ data := [([Val.int 1], 10)] } : PartSt).spill.1).cleanup true).filesOnDisk = 1 := by decide
+end Old
 
 /-! ## 4. selection vectors -/
 
@@ -1164,6 +1555,7 @@ theorem c17_filter_selection_small (p : α → Bool) (phys : Array α) (h : phys
   simp only [Array.length_toList, Array.getElem?_toList] at this
   exact this
 
+namespace Old
 /-- W: a chunk WITH a selection vector: physical rows `[-5, 1, -5, 2, -5, 3]`, selected positions
 1, 3, 5 (rows 1, 2, 3), predicate `x > 0`: the operator looks at physical positions 0..2 and hands
 on `[1]`; LIMIT 2 hands on `[1]`; SKIP 1 hands on `[1]` -/
@@ -1172,6 +1564,7 @@ theorem c17_selection_vector_witness :
     (selRows #[(-5 : Int), 1, -5, 2, -5, 3] (some [1, 3, 5])).filter (fun x => decide (x > 0)) = [1, 2, 3] ∧
     limitSel 2 #[(-5 : Int), 1, -5, 2, -5, 3] (some [1, 3, 5]) = some [1] ∧
     skipSel 1 #[(-5 : Int), 1, -5, 2, -5, 3] (some [1, 3, 5]) = [1] := by decide
+end Old
 
 section Partition
 variable {α κ β : Type} [DecidableEq κ]
@@ -1376,6 +1769,7 @@ theorem dedupFirst_congr_aux {κ' : Type} [DecidableEq κ'] (k1 : α → κ) (k2
       · intro x hx y hy
         exact hc x (by simp [(List.mem_filter.mp hx).1]) y (by simp [(List.mem_filter.mp hy).1])
 
+namespace Old
 /-- P: DISTINCT on hash keys = DISTINCT on the values wherever the hash key separates exactly the
 rows the values separate (a decidable condition on the table) -/
 theorem c17_distinct_hash_keys_partial (cols : Option (List Nat)) (rows : List Row)
@@ -1399,9 +1793,11 @@ theorem c17_hash_key_collision_witness :
   refine ⟨by decide, by decide, by decide, ?_, ?_⟩
   · rw [dedupFirst_eq_dedupStep]; decide
   · rw [dedupFirst_eq_dedupStep]; decide
+end Old
 
 end Partition
 
+namespace Old
 /-- W: a chunk of 65537 rows (what `SortPushOperator::finalize` emits for 65537 input rows) through
 `SkipPushOperator` with SKIP 1: the selection index of the last row, 65536, is stored as the `u16`
 0, so the last row handed on is the FIRST row of the chunk instead of the last. -/
@@ -1416,5 +1812,86 @@ theorem c17_selection_u16_wrap_witness {α : Type} (phys : Array α) (hs : phys.
     simp [u16, h0]
   · rw [List.getLast?_drop]
     simp [hs, List.getLast?_eq_getElem?]
+end Old
+
+/-! ## 5. the repaired operators -/
+
+/-- the two named predicates are instances of the switchable one: the old push predicate (no
+coercion, ordered booleans) and the pull predicate = specification (coercion, no boolean order) -/
+theorem predWith_old (col : Nat) (c : Cmp) (k : Val) (r : Row) : predWith false true col c k r = pushPred col c k r := by
+  unfold predWith pushPred
+  cases r[col]? with
+  | none => rfl
+  | some v => cases v <;> cases k <;> rfl
+
+theorem predWith_spec (col : Nat) (c : Cmp) (k : Val) (r : Row) : predWith true false col c k r = refPred col c k r := by
+  unfold predWith refPred
+  cases r[col]? with
+  | none => rfl
+  | some v => cases v <;> cases k <;> rfl
+
+/-- F: the repaired push filter and the pull filter differ at most on a pair of booleans under an
+ordering comparison -/
+theorem c17_push_pred_eq_ref_off_booleans (col : Nat) (c : Cmp) (k : Val) (r : Row)
+    (h : ∀ a b, r[col]? = some (.bool a) → k ≠ .bool b) :
+    predWith true true col c k r = refPred col c k r := by
+  rw [← predWith_spec]
+  unfold predWith
+  cases hv : r[col]? with
+  | none => rfl
+  | some v =>
+    cases v <;> cases k <;> try rfl
+    rename_i a b
+    exact absurd rfl (h a b hv)
+
+/-- F: `BinaryExpr` over integers never panics: division by zero and `i64::MIN / -1` are NULL -/
+theorem c17_arith_total (op : Arith) (l r : Int) : (arithInt false op l r).isSome = true := by
+  cases op <;> simp only [arithInt] <;> (repeat' split) <;> first | rfl | simp_all
+
+/-- F: value keys: with `hashKeys` off, DISTINCT / GROUP BY of the push operators key rows by their
+values, i.e. exactly like the specification -/
+theorem c17_distinct_value_keys (q : Quirks) (h : q.hashKeys = false) (cols : Option (List Nat)) (rows : List Row) :
+    dedupFirst (rowKey q cols) rows = dedupFirst (idKey cols) rows := by
+  apply dedupFirst_congr_aux _ _ rows.length rows (Nat.le_refl _)
+  intro x _ y _
+  simp [rowKey, h]
+
+/-- F: on a chunk with a selection vector the repaired filter returns the selected rows that pass
+the predicate, in order -/
+theorem c17_filter_selection_repaired {α : Type} (p : α → Bool) (phys : Array α) (s : List Nat) :
+    filterSelNew p phys (some s) = (selRows phys (some s)).filter p := by
+  unfold filterSelNew chunkFilter selRows
+  simp only
+  have h1 : ∀ l : List Nat, (∀ i ∈ l, i ∈ s) → l.filter (fun i => s.contains i) = l := by
+    intro l hl
+    apply List.filter_eq_self.mpr
+    intro i hi
+    simpa using hl i hi
+  rw [h1 _ (fun i hi => (List.mem_filter.mp hi).1)]
+  clear h1
+  induction s with
+  | nil => rfl
+  | cons i rest ih =>
+    simp only [List.filter_cons, List.filterMap_cons]
+    cases hv : phys[i]? with
+    | none => simpa using ih
+    | some r =>
+      by_cases hp : p r
+      · simp [hp, hv, ih, List.filterMap_cons]
+      · simp [hp, ih]
+
+/-- F: LIMIT and SKIP on such a chunk (`DataChunk::slice`) are `take` / `drop` of the selected rows -/
+theorem c17_slice_selection {α : Type} (phys : Array α) (sel : Option (List Nat)) (n k : Nat) :
+    sliceSel 0 n phys sel = (selRows phys sel).take n ∧
+    sliceSel k ((selRows phys sel).length - k) phys sel = (selRows phys sel).drop k := by
+  unfold sliceSel
+  refine ⟨by simp, ?_⟩
+  rw [List.take_of_length_le]
+  simp
+
+/-- F: spill files of `PartitionedState`: `cleanup()` and `Drop` leave nothing behind -/
+theorem c17_partst_cleanup_deletes_files (s : PartSt) :
+    (s.cleanup false).filesOnDisk = s.leaked ∧ (s.cleanup false).file = false ∧ s.leftAtDrop false = s.leaked := by
+  simp [PartSt.cleanup, PartSt.filesOnDisk, PartSt.leftAtDrop]
 
 end Grafeo.Push
